@@ -37,6 +37,14 @@ func (ex *Exec) zeroResult(fn *ssa.Function) Value {
 }
 
 func stubZero(ex *Exec, st *State, site ssa.Instruction, fn *ssa.Function, args []Value) Value {
+	// flag.Bool & co. return pointers that the program dereferences: give them a zero-valued target
+	res := fn.Signature.Results()
+	if res.Len() == 1 && strings.HasPrefix(fnName(fn), "flag.") {
+		if pt, ok := res.At(0).Type().Underlying().(*types.Pointer); ok {
+			id := ex.newObj(st, ex.zero(pt.Elem()))
+			return &PtrV{Obj: id}
+		}
+	}
 	return ex.zeroResult(fn)
 }
 
@@ -45,6 +53,8 @@ func stubNop(ex *Exec, st *State, site ssa.Instruction, fn *ssa.Function, args [
 }
 
 var zeroPrefixes = []string{
+	"flag.",
+	"(*flag.",
 	"go.uber.org/zap",
 	"(*go.uber.org/zap",
 	"(go.uber.org/zap",
@@ -151,6 +161,14 @@ func intrinsic(ex *Exec, st *State, site ssa.Instruction, fn *ssa.Function, args
 	case "Known":
 		ex.Known = append(ex.Known, KnownPred{ID: concreteStrArg(args[0], name), Pred: smt.And(st.pc, args[1].(*smt.Term))})
 		return nil
+	case "TOMLBytes":
+		// registers the decoded value for the decoder stubs and returns placeholder bytes
+		iv, ok := args[0].(*IfaceV)
+		if !ok {
+			panic(unsupported("TOMLBytes needs a pointer to the decoded struct"))
+		}
+		ex.Decoded = iv.V
+		return ex.strToBytes(st, ConcreteStr("<toml>"))
 	case "Param":
 		nm := concreteStrArg(args[0], name)
 		if v, ok := ex.Params[nm]; ok {
@@ -226,6 +244,7 @@ func registerStubs(ex *Exec) {
 	S["math.Abs"] = func(ex *Exec, st *State, site ssa.Instruction, fn *ssa.Function, args []Value) Value {
 		return smt.FAbs(args[0].(*smt.Term))
 	}
+	registerTomlStubs(ex)
 	registerStringStubs(ex)
 	registerRegexStubs(ex)
 }
@@ -350,4 +369,84 @@ func stubSprintf(ex *Exec, st *State, site ssa.Instruction, fn *ssa.Function, ar
 	}
 	ex.Notes = append(ex.Notes, "imprecise Sprintf("+format+")")
 	return ConcreteStr("<sprintf>")
+}
+
+// evdevTables: a small real subset of go-evdev's name tables (the package initialiser is not run).
+// Names outside the subset are "not found" on both sides of every comparison; stated as a bound of the claim.
+var evdevKeys = map[string]uint16{"KEY_ESC": 1, "KEY_1": 2, "KEY_A": 30, "KEY_S": 31, "KEY_D": 32, "KEY_Z": 44, "KEY_LEFTALT": 56, "KEY_F1": 59, "KEY_F2": 60}
+var evdevAbs = map[string]uint16{"ABS_X": 0, "ABS_Y": 1, "ABS_Z": 2, "ABS_RX": 3, "ABS_HAT0X": 16, "ABS_HAT0Y": 17}
+
+func tableInit(tbl map[string]uint16) func(ex *Exec, st *State) Value {
+	return func(ex *Exec, st *State) Value {
+		names := make([]string, 0, len(tbl))
+		for n := range tbl {
+			names = append(names, n)
+		}
+		sortStrings(names)
+		mc := &MapC{}
+		for _, n := range names {
+			mc.Entries = append(mc.Entries, MapEntry{K: ConcreteStr(n), P: smt.True, V: smt.Const(16, uint64(tbl[n]))})
+		}
+		id := ex.newObj(st, mc)
+		return &MapV{Obj: id}
+	}
+}
+
+func sortStrings(a []string) {
+	for i := 1; i < len(a); i++ {
+		for j := i; j > 0 && a[j] < a[j-1]; j-- {
+			a[j], a[j-1] = a[j-1], a[j]
+		}
+	}
+}
+
+func registerTomlStubs(ex *Exec) {
+	S := ex.Stubs
+	ex.GlobalInit["github.com/holoplot/go-evdev.KEYFromString"] = tableInit(evdevKeys)
+	ex.GlobalInit["github.com/holoplot/go-evdev.ABSFromString"] = tableInit(evdevAbs)
+	S["bytes.NewReader"] = func(ex *Exec, st *State, site ssa.Instruction, fn *ssa.Function, args []Value) Value {
+		return ex.newOpaque("bytesReader")
+	}
+	S["github.com/pelletier/go-toml/v2.NewDecoder"] = func(ex *Exec, st *State, site ssa.Instruction, fn *ssa.Function, args []Value) Value {
+		return ex.newOpaque("tomlDecoder")
+	}
+	S["(*github.com/pelletier/go-toml/v2.Decoder).DisallowUnknownFields"] = func(ex *Exec, st *State, site ssa.Instruction, fn *ssa.Function, args []Value) Value {
+		return args[0]
+	}
+	decode := func(ex *Exec, st *State, site ssa.Instruction, target Value) Value {
+		// the library either fails or leaves an arbitrary value of the target type: the harness supplies that value
+		fail := ex.freshBool("toml_decode_fails")
+		if ex.Decoded == nil {
+			panic(unsupported("toml decode without a registered decoded value (verifrt.TOMLBytes)"))
+		}
+		src, ok := ex.Decoded.(*PtrV)
+		if !ok {
+			panic(unsupported("registered decoded value is not a pointer"))
+		}
+		var dst *PtrV
+		switch t := target.(type) {
+		case *PtrV:
+			dst = t
+		case *IfaceV:
+			dst, _ = t.V.(*PtrV)
+		}
+		if dst == nil {
+			panic(unsupported("toml decode target is not a pointer"))
+		}
+		ex.guarded(st, smt.Not(fail), func(st *State) {
+			st.heap[dst.Obj] = ex.setPath(ex.get(st, dst.Obj), dst.Path, ex.load(st, site, src))
+		})
+		return mergeV(fail, &IfaceV{T: nil, V: ex.newOpaque("error")}, Nil)
+	}
+	S["(*github.com/pelletier/go-toml/v2.Decoder).Decode"] = func(ex *Exec, st *State, site ssa.Instruction, fn *ssa.Function, args []Value) Value {
+		return decode(ex, st, site, args[1])
+	}
+	S["github.com/pelletier/go-toml/v2.Unmarshal"] = func(ex *Exec, st *State, site ssa.Instruction, fn *ssa.Function, args []Value) Value {
+		return decode(ex, st, site, args[1])
+	}
+	S["os.ReadFile"] = func(ex *Exec, st *State, site ssa.Instruction, fn *ssa.Function, args []Value) Value {
+		fail := ex.freshBool("readfile_fails")
+		data := ex.strToBytes(st, ConcreteStr("<file>"))
+		return &TupleV{E: []Value{mergeV(fail, Value(&SliceV{Obj: 0, Len: bv64(0)}), data), mergeV(fail, &IfaceV{T: nil, V: ex.newOpaque("error")}, Nil)}}
+	}
 }
